@@ -10,7 +10,12 @@ spec = importlib.util.spec_from_loader("verifcli", loader); v = importlib.util.m
 from rules.shared_refusals import inventory
 facts = v.Ctx("quick").facts
 inv = inventory(facts)
-out = {"_comment": "function (helpers inlined, closures attributed to the parent) -> [[kind, message], ...]; compared per function and kind by the number of distinct messages (rules/shared_refusals.py)",
+old = {}
+try:
+    old = json.load(open(os.path.join(HERE, "tables", "refusals.json")))
+except Exception:
+    pass
+out = {"cfg_only": old.get("cfg_only", []), "_comment_cfg_only": old.get("_comment_cfg_only", ""), "_comment": "function (helpers inlined, closures attributed to the parent) -> [[kind, message], ...]; compared per function and kind by the number of distinct messages (rules/shared_refusals.py)",
        "functions": {k: [list(x) for x in inv[k]] for k in sorted(inv)}}
 with open(os.path.join(HERE, "tables", "refusals.json"), "w") as fh:
     json.dump(out, fh, indent=1, sort_keys=True)
